@@ -15,7 +15,7 @@ MAP = [
     (r"index/", "C09 C16 C17"), (r"host/settings/", "C16 C09 C18"), (r"rhp/", "C07 C12 C14 C10"),
 ]
 env = dict(os.environ, GOFLAGS="-mod=mod", GOPROXY="off", GOSUMDB="off", GOTOOLCHAIN="local")
-outp, patches = sys.argv[1], sys.argv[2:]
+outp, patches = sys.argv[1], [os.path.abspath(x) for x in sys.argv[2:]]
 res = json.load(open(outp)) if os.path.exists(outp) else []
 done = {r["patch"] for r in res}
 for p in patches:
